@@ -30,7 +30,8 @@ Definition enc_step (p : res (option Z) * list ev) : list Z :=
 
 (* teardown of the other owners, dropped at position p with the same armed destructor:
    [23] the array itself; [24; p] ArrayBuilder, [26; p] IntrusiveArrayBuilder (prefix [0, p));
-   [25; p] ArrayConsumer (suffix [p, N)) *)
+   [25; p] ArrayConsumer (suffix [p, N));
+   [28; l] the partial / complete array inside try_from_iter when the source yields l <> N items *)
 Definition teardown (bomb : option Z) (a : list Z) (rest : list Z) : option (list Z) :=
   let fin (l : list Z) :=
       let '(fired, _, e) := drop_list bomb l in
@@ -39,6 +40,13 @@ Definition teardown (bomb : option Z) (a : list Z) (rest : list Z) : option (lis
   | [23] => fin a
   | [24; p] | [26; p] => fin (firstn (znat p) a)
   | [25; p] => fin (skipn (znat p) a)
+  | [28; l] =>
+    (* try_from_iter over a source of l items with size_hint (0, None): l = N: the array is returned, nothing
+       is released; otherwise the min l (N+1) items that were delivered (N of them written, one polled beyond)
+       are each released exactly once inside the call, which panics iff the armed destructor is among them *)
+    let n := zlen a in
+    if l =? n then Some [7; 0]
+    else fin (map Z.of_nat (seq 0 (znat (Z.min l (n + 1)))))
   | _ => None
   end.
 
